@@ -78,3 +78,8 @@ Proof. vm_compute. intro H. discriminate H. Qed.
 
 Lemma source_facts_hold : source_facts_ok = true.
 Proof. vm_compute. reflexivity. Qed.
+
+(* a thread-safe customize call with another bound, then a defaults compression: the view differs from the fresh one *)
+Lemma threadsafe_leaves_bounds_history_dependent :
+  view (step_ts (init cfg0) 0 500 0 0 (dat 0 false) 64) Defaults (dat 0 false) <> view (init cfg0) Defaults (dat 0 false).
+Proof. vm_compute. discriminate. Qed.
